@@ -5,7 +5,7 @@ from props.c05 import canon
 from props.c03 import select_all
 
 PAGES = [4096, 8192, 16384, 65536]
-CACHES = [24, 40, 100, 1000]
+CACHES = [24, 40, 100, 1000, 65536, 65540, 131072]      # the page-zero header stores the cache size in 16 bits
 POOLS = [1, 2, 4]
 MINKEYS = [3, 4, 8]
 SIBS = [1, 2, 3]
@@ -173,9 +173,10 @@ class C12(Spec):
     theorems = ["C12_cache", "C12_capacity_independent", "C12_reference"]
     rule = ("workloads: one table (with or without PRIMARY KEY), 4-8 rounds of multi-row INSERT (5-60 rows), DELETE, UPDATE, point "
             "SELECTs, flush, VACUUM, rolled-back sessions, final full read, reopen, full read - run under four configurations at once "
-            "(page 4-64 KiB, cache 24-1000 frames, pool 1-4, minimum keys 3-8, siblings 1-3; the first is a reference configuration); "
-            "the harness reports the first answer on which two configurations differ, a configuration that answers out-of-memory is "
-            "left out from there.  Oracle independent of the model: no such difference, no panic.  The common answers are also "
+            "(page 4-64 KiB, cache 24-1000 frames and sizes at and above 2^16, pool 1-4, minimum keys 3-8, siblings 1-3; the first is a reference configuration); "
+            "the harness reports the first answer on which two configurations differ; a configuration that answers out-of-memory is "
+            "left out from there if its cache has fewer than a thousand frames and is reported otherwise (the workloads touch fewer than a "
+            "hundred pages).  Oracle independent of the model: no such difference, no panic.  The common answers are also "
             "compared with RefDB.  pager: allocate / write / read / pin / unpin / flush sequences on the real pager with caches of 1-6 "
             "frames against the cache model, with a python oracle (a read returns the last acknowledged write).  Rows above a "
             "twentieth of the smallest page are the recorded class large-cells")
